@@ -62,7 +62,7 @@ def run(c):
                 lines2.add("codec.r2 bit %d %s %s" % (by_name[n]["idx"], n, h))
         else:
             # (A) values decoded from valid TL1 bytes (TL1-origin types), bare and boxed, plus FillRandom through TL1
-            g1 = cc.Gen1(sc, rng.fork(), big=c.thorough)
+            g1 = cc.Gen1(sc, rng.fork(), big=c.thorough, huge=20 if c.thorough else 40)
             rnd = []
             for inst, it in items:
                 if not it[3]:
@@ -91,7 +91,7 @@ def run(c):
                     c.count("codec.rand2:fillpanic")     # FillRandom itself panicked (no value obtained): C18's concern
                     fillpanics.add(inst["tlname"])
             # (C) values read from arbitrary TL2 bytes: type-directed encodings (minimal / re-encoded), mutations, random bytes
-            g2 = t2.Gen2(sc, rng.fork(), big=c.thorough, negzero=True)
+            g2 = t2.Gen2(sc, rng.fork(), big=c.thorough, negzero=True, huge=20 if c.thorough else 40)
             for inst, it in items:
                 if t2.is_enum_element(sc, inst):
                     continue
